@@ -32,7 +32,7 @@
 
 From Coq Require Import PrimFloat.
 From Coq Require Import ZArith List Bool Reals Lra Permutation Sorted.
-From BZ Require Import Base.Ops Gen.Point Gen.Line Gen.Quad Gen.Cubic Gen.CurveDist Hand.MinDist Proofs.C20.
+From BZ Require Import Base.Ops Gen.Point Gen.Line Gen.Quad Gen.Cubic Gen.CurveDist Hand.MinDist Proofs.C20 Proofs.C20term.
 Import ListNotations.
 Open Scope R_scope.
 
@@ -120,6 +120,48 @@ Proof. exact minDist_ok_example. Qed.
 Theorem C20_curveDistance_ok_example :
   forall fuel, curveDistance ROps (Datatypes.S fuel) pointlike_a pointlike_b = Ok (sqrt 1, (0 + 1) / 2, (0 + 1) / 2).
 Proof. exact curveDistance_ok_example. Qed.
+Theorem C20_seg_D00 :
+  forall s1 s2, Dtab (seg_Dtable ROps s1 s2) 0 0 = Some (seg_S ROps s1 s2 0 0).
+Proof. exact seg_D00. Qed.
+Theorem C20_seg_minDist_terminates :
+  forall fuel s1 s2 st, (80 <= fuel)%nat -> fst (minDist ROps (seg_order s1) (seg_order s2) (fun u v => Some (seg_S ROps s1 s2 u v)) (Dtab (seg_Dtable ROps s1 s2)) fuel st 0 1 0 1) <> OutOfFuel.
+Proof. exact seg_minDist_terminates. Qed.
+Theorem C20_curveDistance_state_terminates :
+  forall fuel s1 s2, (80 <= fuel)%nat -> fst (curveDistance_state ROps (seg_order s1) (seg_order s2) (fun u v => Some (seg_S ROps s1 s2 u v)) (Dtab (seg_Dtable ROps s1 s2)) fuel) <> OutOfFuel.
+Proof. exact curveDistance_state_terminates. Qed.
+Theorem C20_curveDistance_terminates :
+  forall fuel s1 s2, (80 <= fuel)%nat -> curveDistance ROps fuel s1 s2 <> OutOfFuel.
+Proof. exact curveDistance_terminates. Qed.
+Theorem C20_curveDistance_returns :
+  forall fuel s1 s2, (80 <= fuel)%nat -> exists d t1 t2, curveDistance ROps fuel s1 s2 = Ok (d, t1, t2).
+Proof. exact curveDistance_returns. Qed.
+Theorem C20_curveDistance_returns_realised :
+  forall fuel s1 s2, (80 <= fuel)%nat -> exists d t1 t2, curveDistance ROps fuel s1 s2 = Ok (d, t1, t2) /\ 0 <= d /\ 0 <= t1 <= 1 /\ 0 <= t2 <= 1 /\ exists u' v', 0 <= u' <= 1 /\ 0 <= v' <= 1 /\ d = seg_dist s1 s2 u' v'.
+Proof. exact curveDistance_returns_realised. Qed.
+Theorem C20_curveDistance_fuel_irrelevant :
+  forall fuel s1 s2, (80 <= fuel)%nat -> curveDistance ROps fuel s1 s2 = curveDistance ROps 80 s1 s2.
+Proof. exact curveDistance_fuel_irrelevant. Qed.
+Theorem C20_float_run_ok :
+  is_ok (curveDistance FOps 80 cubic_a cubic_b) = true.
+Proof. exact float_run_ok. Qed.
+Theorem C20_float_run_depth :
+  fuel_needed cubic_a cubic_b 80 = Some 11%nat.
+Proof. exact float_run_depth. Qed.
+Theorem C20_termination_needs_D00 :
+  forall fuel, fst (minDist ROps 1 1 Sbad Dbad fuel (None, 0%nat) 0 1 0 1) = OutOfFuel.
+Proof. exact termination_needs_D00. Qed.
+Theorem C20_minIJ_level_independent :
+  forall (D : nat -> nat -> option R) n m alpha1 alpha2 io1 md mij, fold_left (p1_step ROps D alpha1) (index_pairs n m) (Ok (true, None, None)) = Ok (io1, md, mij) -> exists io2, fold_left (p1_step ROps D alpha2) (index_pairs n m) (Ok (true, None, None)) = Ok (io2, md, mij).
+Proof. exact @minIJ_level_independent. Qed.
+Theorem C20_minIJ_not_origin :
+  forall (D : nat -> nat -> option R) n m alpha d00 md i j, (1 <= n)%nat -> (1 <= m)%nat -> D 0%nat 0%nat = Some d00 -> alpha <= d00 -> fold_left (p1_step ROps D alpha) (index_pairs n m) (Ok (true, None, None)) = Ok (false, md, Some (i, j)) -> (i, j) <> (0%nat, 0%nat) /\ (i < 2 * n)%nat /\ (j < 2 * m)%nat.
+Proof. exact @minIJ_not_origin. Qed.
+Theorem C20_minDist_terminates_abstract :
+  forall (n m : nat) (S : R -> R -> option R) (D : nat -> nat -> option R), (1 <= n <= 3)%nat -> (1 <= m <= 3)%nat -> (exists d00, D 0%nat 0%nat = Some d00 /\ S 0 0 = Some d00) -> forall fuel st, (80 <= fuel)%nat -> fst (minDist ROps n m S D fuel st 0 1 0 1) <> OutOfFuel.
+Proof. exact @minDist_terminates_abstract. Qed.
+Theorem C20_minDist_fuel_irrelevant :
+  forall (T : Type) (O : Ops T) (n m : nat) (S : T -> T -> option T) (D : nat -> nat -> option T) f f' st a b c d, (f <= f')%nat -> fst (minDist O n m S D f st a b c d) <> OutOfFuel -> minDist O n m S D f' st a b c d = minDist O n m S D f st a b c d.
+Proof. exact @minDist_fuel_irrelevant. Qed.
 
 Print Assumptions C20_S_is_sqdist_2_2.
 Print Assumptions C20_S_is_sqdist_2_3.
@@ -149,3 +191,17 @@ Print Assumptions C20_path_dist_bounds.
 Print Assumptions C20_curveDistance_outcomes.
 Print Assumptions C20_minDist_ok_example.
 Print Assumptions C20_curveDistance_ok_example.
+Print Assumptions C20_seg_D00.
+Print Assumptions C20_seg_minDist_terminates.
+Print Assumptions C20_curveDistance_state_terminates.
+Print Assumptions C20_curveDistance_terminates.
+Print Assumptions C20_curveDistance_returns.
+Print Assumptions C20_curveDistance_returns_realised.
+Print Assumptions C20_curveDistance_fuel_irrelevant.
+Print Assumptions C20_float_run_ok.
+Print Assumptions C20_float_run_depth.
+Print Assumptions C20_termination_needs_D00.
+Print Assumptions C20_minIJ_level_independent.
+Print Assumptions C20_minIJ_not_origin.
+Print Assumptions C20_minDist_terminates_abstract.
+Print Assumptions C20_minDist_fuel_irrelevant.
